@@ -51,6 +51,55 @@ def kids_of(facts, X):
     return kids
 
 
+GRAMMAR_ONLY = {"=": "a single `=` is lexed by the parser only to report `did you mean ==`; no parseable policy contains it",
+                "\\?[_a-zA-Z][_a-zA-Z0-9]*": "slots other than ?principal / ?resource are lexed by the parser only to be rejected"}
+
+
+def lexer_tables(chk):
+    """The formatter re-lexes the policy text with its own lexer (to attach comments to tokens). Whatever token the parser's
+    lexer accepts in a parseable policy the formatter's lexer must accept as the same token, and both must skip the same
+    whitespace and comments — otherwise formatting fails, or comments are attached to the wrong token, on parseable text.
+    Source-level table comparison: grammar.lalrpop's `match` block against the #[token] / #[regex] attributes of token.rs."""
+    import os
+    from lib import grammar
+    from lib.factsbuild import REPO
+    rule = "C12.LEXER"
+    g = grammar.load()
+    path = os.path.join(REPO, "cedar-policy-formatter/src/pprint/token.rs")
+    try:
+        t = open(path).read()
+    except OSError:
+        chk.lost(rule, "cedar-policy-formatter/src/pprint/token.rs")
+        return
+    src = open(os.path.join(REPO, grammar.PATH)).read()
+    ftoks = set(re.findall(r'#\[token\("((?:[^"\\]|\\.)*)"\)\]', t))
+    fregs = []
+    for m in re.finditer(r'#\[regex\((?:r#"(.*?)"#|r"((?:[^"\\]|\\.)*)"|"((?:[^"\\]|\\.)*)")\s*,\s*([^\]]*)\]', t):
+        fregs.append((m.group(1) or m.group(2) or m.group(3), "skip" if "logos::skip" in m.group(4) else "token"))
+    glits = set(g["literals"]) | set(g["aliases"].values())
+    gregs = set(g["regex"].values())
+    mm = re.search(r"\nmatch\s*\{(.*?)\n\}\n", src, re.S)
+    gskips = set(re.findall(r'r"((?:[^"\\]|\\.)*)"\s*=>\s*\{\s*\}', mm.group(1))) if mm else set()
+    gregs |= {x for x in re.findall(r'r#"(.*?)"#\s*=>\s*[A-Z_]+', mm.group(1))} if mm else set()
+    n = 0
+    missing = sorted(x for x in glits if x not in ftoks and x not in GRAMMAR_ONLY)
+    n += 1
+    chk.ob(rule, "literal-tokens", not missing and len(glits) >= 40, "every literal token of the parser's lexer (%d) is a token of the formatter's lexer; missing: %s" % (len(glits), missing or "none"),
+           where="cedar-policy-formatter/src/pprint/token.rs", key=rule + ":literals", sample={"grammar_literals": len(glits), "formatter_tokens": len(ftoks)})
+    ftok_regs = {r_ for r_, k in fregs if k == "token"}
+    missing = sorted(x for x in gregs if x not in ftok_regs and x not in GRAMMAR_ONLY)
+    n += 1
+    chk.ob(rule, "pattern-tokens", not missing and len(gregs) >= 3, "every pattern token of the parser's lexer %s is a pattern of the formatter's lexer %s; missing: %s" % (sorted(gregs), sorted(ftok_regs), missing or "none"),
+           where="cedar-policy-formatter/src/pprint/token.rs", key=rule + ":patterns", sample={"grammar": sorted(gregs), "formatter": sorted(ftok_regs)})
+    strip = lambda x: re.sub(r"[*+]$", "", x)
+    fskips = {strip(r_) for r_, k in fregs if k == "skip"}
+    gsk = {strip(x) for x in gskips}
+    n += 1
+    chk.ob(rule, "skipped", fskips == gsk and len(gsk) == 2, "both lexers skip the same whitespace and comment patterns: parser %s, formatter %s" % (sorted(gskips), sorted(r_ for r_, k in fregs if k == "skip")),
+           where="cedar-policy-formatter/src/pprint/token.rs", key=rule + ":skips", sample={"parser": sorted(gskips), "formatter": sorted(r_ for r_, k in fregs if k == "skip")})
+    chk.floor(rule, "lexer table rows", n, 3)
+
+
 def run(chk, facts, tier):
     facts.load_crate("cedar_policy_formatter.lib")
     facts.load_crate("cedar_policy_core.lib")
@@ -116,3 +165,4 @@ def run(chk, facts, tier):
             continue
         chk.ob(rule2, X, own in texts[X] and other not in texts[X], "the %s impl writes the operator texts %s (its own: %r)" % (X, sorted(texts[X]), own), key="%s:%s" % (rule2, X),
                sample={"node": X, "texts": sorted(texts[X])})
+    lexer_tables(chk)
